@@ -22,6 +22,7 @@ import (
 	"strings"
 	"testing"
 
+	vault "github.com/hashicorp/vault/api"
 	"github.com/nuts-foundation/nuts-node/core"
 	"github.com/nuts-foundation/nuts-node/crypto/storage/spi"
 )
@@ -39,6 +40,67 @@ func (c03Stub) DeletePrivateKey(context.Context, string) error                  
 
 var c03Wrapped = spi.NewValidatedKIDBackendWrapper(c03Stub{}, spi.KidPattern)
 
+// a recording Vault client: every path the REAL vaultKVStorage methods send to Vault
+type c03Client struct {
+	store map[string]map[string]interface{}
+	paths *[]string
+}
+
+func (c c03Client) ReadWithContext(_ context.Context, path string) (*vault.Secret, error) {
+	*c.paths = append(*c.paths, path)
+	if d, ok := c.store[path]; ok {
+		return &vault.Secret{Data: d}, nil
+	}
+	return nil, nil
+}
+func (c c03Client) WriteWithContext(_ context.Context, path string, data map[string]interface{}) (*vault.Secret, error) {
+	*c.paths = append(*c.paths, path)
+	c.store[path] = data
+	return &vault.Secret{Data: data}, nil
+}
+func (c c03Client) ReadWithDataWithContext(_ context.Context, path string, _ map[string][]string) (*vault.Secret, error) {
+	*c.paths = append(*c.paths, path)
+	return &vault.Secret{Data: c.store[path]}, nil
+}
+func (c c03Client) DeleteWithContext(_ context.Context, path string) (*vault.Secret, error) {
+	*c.paths = append(*c.paths, path)
+	delete(c.store, path)
+	return &vault.Secret{}, nil
+}
+
+var c03Key, _ = spi.GenerateKeyPair()
+
+// Save, Exists, Get, Delete of one key name through the REAL wrapper around the REAL vaultKVStorage
+func c03Use(prefix, kid string) string {
+	var paths []string
+	cl := c03Client{store: map[string]map[string]interface{}{}, paths: &paths}
+	be := spi.NewValidatedKIDBackendWrapper(vaultKVStorage{config: Config{PathPrefix: prefix}, client: cl}, spi.KidPattern)
+	ctx := context.Background()
+	cls := func(err error) string {
+		switch {
+		case err == nil:
+			return "ok"
+		case strings.Contains(err.Error(), "invalid key ID"):
+			return "invalid-key-id"
+		}
+		return "other"
+	}
+	var res []string
+	res = append(res, cls(be.SavePrivateKey(ctx, kid, c03Key)))
+	ok, err := be.PrivateKeyExists(ctx, kid, "1")
+	res = append(res, fmt.Sprintf("%s/%v", cls(err), ok))
+	k, err := be.GetPrivateKey(ctx, kid, "1")
+	same := k != nil && k.Public().(interface{ Equal(crypto.PublicKey) bool }).Equal(c03Key.Public())
+	res = append(res, fmt.Sprintf("%s/%v", cls(err), same))
+	res = append(res, cls(be.DeletePrivateKey(ctx, kid)))
+	var hp []string
+	for _, p := range paths {
+		hp = append(hp, hex.EncodeToString([]byte(p)))
+	}
+	left := len(cl.store)
+	return fmt.Sprintf("vaultuse res=%s paths=[%s] left=%d", strings.Join(res, ","), strings.Join(hp, ","), left)
+}
+
 func c03Exec(op map[string]interface{}) (line string) {
 	defer func() {
 		if r := recover(); r != nil {
@@ -47,6 +109,9 @@ func c03Exec(op map[string]interface{}) (line string) {
 	}()
 	str := func(k string) string { s, _ := op[k].(string); return s }
 	unhex := func(k string) string { b, _ := hex.DecodeString(str(k)); return string(b) }
+	if str("op") == "vaultuse" {
+		return c03Use(unhex("prefix"), unhex("kid"))
+	}
 	if str("op") != "vaultpath" {
 		return "bad-op:" + str("op")
 	}
@@ -128,7 +193,7 @@ func TestVerifC03(t *testing.T) {
 		sc.Buffer(make([]byte, 1<<20), 1<<26)
 		for sc.Scan() {
 			var op map[string]interface{}
-			if json.Unmarshal(sc.Bytes(), &op) == nil && op["op"] == "vaultpath" {
+			if json.Unmarshal(sc.Bytes(), &op) == nil && (op["op"] == "vaultpath" || op["op"] == "vaultuse") {
 				emit(op)
 			}
 		}
@@ -149,6 +214,18 @@ func TestVerifC03(t *testing.T) {
 		for _, s := range c03Seeds {
 			emit(map[string]interface{}{"op": "vaultpath", "prefix": hx(p), "kid": hx(s)})
 		}
+	}
+	for _, p := range c03Prefixes {
+		for _, s := range c03Seeds {
+			emit(map[string]interface{}{"op": "vaultuse", "prefix": hx(p), "kid": hx(s)})
+		}
+	}
+	nu := 3000
+	if thorough {
+		nu = 40000
+	}
+	for i := 0; i < nu; i++ {
+		emit(map[string]interface{}{"op": "vaultuse", "prefix": hx(c03Prefixes[r.Intn(len(c03Prefixes))]), "kid": hx(c03Name(r))})
 	}
 	n := 20000
 	if thorough {
